@@ -56,7 +56,10 @@ NiShape* buildShape(NifFile& nif, const json& s, Ctx& ctx) {
 	uint32_t nt = uint32_t(jint(s, "nt", 16));
 	bool halves = ver.IsFO4() || ver.IsFO76();
 	Mesh m = makeMesh(nv, nt, salt, jbool(s, "halfexact", halves));
-	std::string name = jstr(s, "name", "shape");
+	// the name-based setters of the API address the first shape with a given name: build under a unique
+	// working name and give the shape its (possibly clashing) final name at the end
+	std::string finalName = jstr(s, "name", "shape");
+	std::string name = "__build_" + std::to_string(hdr.GetNumBlocks()) + "_" + finalName;
 	bool wantUV = jbool(s, "uv", true), wantN = jbool(s, "normals", true);
 	std::string kind = jstr(s, "kind", "auto");
 
@@ -172,7 +175,7 @@ NiShape* buildShape(NifFile& nif, const json& s, Ctx& ctx) {
 		std::vector<int> ids;
 		std::vector<NiNode*> made;
 		for (int b = 0; b < nbones; b++) {
-			std::string bn = name + "_Bone" + std::to_string(b);
+			std::string bn = finalName + "_" + std::to_string(hdr.GetNumBlocks()) + "_Bone" + std::to_string(b);
 			NiNode* parent = (!made.empty() && r.chance(0.4)) ? made[r.below(uint32_t(made.size()))] : nullptr;
 			auto nd = nif.AddNode(bn, randomXform(r), parent);
 			made.push_back(nd);
@@ -279,6 +282,7 @@ NiShape* buildShape(NifFile& nif, const json& s, Ctx& ctx) {
 		}
 	}
 	if (jbool(s, "dyn_flag", false)) nif.SetShapeDynamic(name);
+	NifFile::RenameShape(shape, finalName);
 	return shape;
 }
 
